@@ -277,6 +277,34 @@ CLAIMED["C19"]["note"] = NOTE_COMMON + ("Across the lines the observation-only h
                                        "with no version known a failing version-query write in `finally` masks the older run's missing error (witness in DESIGN 12.4).")
 CLAIMED["C19"]["technique"] = "Lean 4 proof (non-interference traversal + induction over histories; dispatch equality from generated tables) + paired differential runs"
 
+TIE = (" The handler bodies themselves are regenerated from the code on every run: tools/translate.py compiles the Python AST of every "
+       "incoming handler body, both decorators, the sleep-buffer release loop, the outgoing handlers, the protocol_version setter and the "
+       "Node methods they call into Generated/Bodies.lean, and Lemmas/BodiesEq.lean proves each generated definition EQUAL to the model's "
+       "handler and recvGen = recv / apiSendGen = apiSend (the receive and send paths assembled from the generated text), so the theorems "
+       "above are theorems about what the code says now; an equality that stops checking triggers a model-guided search (DriverGen.lean: "
+       "model and translation side by side over random and bounded-exhaustive histories) whose diverging histories are replayed on the "
+       "implementation under this property's oracle.")
+for _k in ("C03", "C04", "C05", "C06", "C07", "C08", "C10", "C11", "C12", "C19"):
+    CLAIMED[_k]["text"] += TIE
+    CLAIMED[_k]["technique"] += " + handler bodies translated from the Python AST with equality proofs (BodiesEq)"
+    CLAIMED[_k]["note"] += (" tools/translate.py is trusted to render the Python subset it accepts faithfully into the vocabulary of Model/Lit.lean "
+                            "(a body it cannot read falls back to the committed translation and is tied by the correspondence run alone; the "
+                            "evidence lists it).")
+CLAIMED["C02"]["text"] += (" The malformed stream is also fed end to end through Gateway.listen (one long-lived and fresh generators, populated registries): "
+                           "a rejected line must raise InvalidMessageError carrying no decoded message, change nothing and not swallow the next line.")
+CLAIMED["C03"]["text"] += (" Whole pipelines bytes -> StreamTransport.read -> listen -> handler -> send -> StreamTransport.write on one real transport are run with "
+                           "undecodable bytes inside payloads and later echoes of stored values.")
+CLAIMED["C05"]["text"] += (" Gateway sessions with a persistence file that already holds node 0 (any stored version string) are run: before any report the stored "
+                           "version is None and the protocol the default, per Gateway object.")
+CLAIMED["C11"]["text"] += (" Whole lives of one Gateway object with a persistence file (failed final saves, files replaced or damaged between sessions, "
+                           "mid-session loads) are judged: ids handed out by the object are pairwise distinct and distinct from every id it ever had registered.")
+CLAIMED["C12"]["text"] += (" Between a hold and the node's next wake 28 kinds of traffic are interposed (re-presentations of the destination, other traffic, "
+                           "further sends, reconnects), in four shapes x five versions.")
+CLAIMED["C13"]["text"] += (" Chains save -> traffic ending in errors after the registry was updated -> save -> load on one Persistence object are compared with a fresh load.")
+CLAIMED["C14"]["text"] += (" Directories with sibling files next to the persistence file (.bak, .tmp, .lock, ~; valid, truncated, undecodable, deep, wrong shape) are generated.")
+CLAIMED["C16"]["text"] += (" Histories of 2-4 contexts on the SAME Gateway and transport objects, an earlier one ending at every fault position, are judged per session.")
+CLAIMED["C17"]["text"] += (" Concurrent writers on a writer whose drain the harness gates, with disconnect / connection loss at every point: every write sends its whole "
+                           "line in call order or raises a TransportError.")
 
 PENDING_REASON = "check not built yet in this round (model and theorems in progress); see DESIGN.md section 7"
 
@@ -306,10 +334,11 @@ manifest = {
         "add_only": True,
     },
     "engines": [
-        {"name": "lean-proof+correspondence", "path": "lean/ + harness/ + tools/extract.py",
+        {"name": "lean-proof+correspondence", "path": "lean/ + harness/ + tools/extract.py + tools/translate.py",
          "serves_properties": sorted(CLAIMED),
-         "kind_free_text": "Lean 4 theorems about a formal model; tables regenerated from the code by a translator; "
-                           "hand-written behaviour model checked against the implementation by a differential run through Driver.lean"},
+         "kind_free_text": "Lean 4 theorems about a formal model; tables AND handler bodies regenerated from the code by two translators "
+                           "(bodies tied to the model by equality proofs); hand-written behaviour model checked against the implementation by a "
+                           "differential run through Driver.lean"},
     ],
     "checks": checks,
     "notes": "All properties are decided by machine-checked proof in Lean 4 about a model tied to the code (DESIGN.md sections 2-5). "
